@@ -133,7 +133,7 @@ class Hist:
         vmf = self.maps[mi]
         op = rng.choice(['ent', 'ent', 'brush_ent', 'solid', 'side', 'vis', 'group', 'copy_ent', 'copy_ent_other', 'copy_solid',
                          'remove_ent', 'remove_ent', 'drop', 'drop', 'readd', 'readd', 'remove_brush', 'nodeid', 'nodeid_change',
-                         'fixup', 'fixup_copy', 'parse_dups', 'collapse', 'copy_side', 'copy_vis', 'copy_group', 'failed_create'])
+                         'fixup', 'fixup_copy', 'parse_dups', 'collapse', 'copy_side', 'copy_vis', 'copy_group', 'failed_create', 'remove_again'])
         try:
             if op == 'ent':
                 d = rng.choice(IDS)
@@ -230,6 +230,19 @@ class Hist:
                 (s.remove if rng.random() < 0.5 else (lambda: vmf.remove_brush(s)))()
                 self.held.append(s)
                 self.log.append(f'{op} map{mi} id={s.id} (object kept alive)')
+            elif op == 'remove_again':
+                # removing an object that is already out of the map is tolerated; it must not release an ID that a live
+                # object now owns (the removed object's ID may have been recycled in the meantime)
+                cands = [o for o in self.held if o.map is vmf]
+                if not cands:
+                    return
+                o = rng.choice(cands)
+                if isinstance(o, Entity):
+                    (o.remove if rng.random() < 0.5 else (lambda: vmf.remove_ent(o)))()
+                else:
+                    (o.remove if rng.random() < 0.5 else (lambda: vmf.remove_brush(o)))()
+                self.log.append(f'{op} map{mi} {type(o).__name__} id={o.id} removed a second time (still held)')
+                self.nontrivial = True
             elif op == 'drop':
                 if not self.held:
                     return
@@ -303,9 +316,17 @@ class Hist:
                 doc = 'world\n{\n"id" "%s"\n"classname" "worldspawn"\n' % ids[0]
                 doc += 'solid\n{\n"id" "%s"\nside\n{\n"id" "%s"\n"plane" "(0 0 0) (1 0 0) (0 1 0)"\n}\nside\n{\n"id" "%s"\n"plane" "(0 0 0) (1 0 0) (0 1 0)"\n}\n}\n' % (ids[1], ids[2], ids[2])
                 doc += 'solid\n{\n"id" "%s"\nside\n{\n"id" "%s"\n"plane" "(0 0 0) (1 0 0) (0 1 0)"\n}\n}\n' % (ids[1], ids[3])
+                if rng.random() < 0.5:  # hidden world brushes, colliding with the visible ones
+                    doc += 'hidden\n{\nsolid\n{\n"id" "%s"\nside\n{\n"id" "%s"\n"plane" "(0 0 0) (1 0 0) (0 1 0)"\n}\neditor\n{\n"groupid" "4"\n"visgroupid" "3"\n}\n}\n}\n' % (ids[1], ids[3])
                 doc += 'group\n{\n"id" "4"\n}\ngroup\n{\n"id" "4"\n}\n}\n'
                 for k in range(3):
                     doc += 'entity\n{\n"id" "%s"\n"classname" "info_node"\n"nodeid" "%s"\n"replace01" "$a 1"\n"replace01" "$b 2"\n}\n' % (ids[k], rng.choice((1, 1, 2)))
+                if rng.random() < 0.6:  # a brush entity (visible or hidden) whose brush and face IDs collide with the world's
+                    ent = ('entity\n{\n"id" "%s"\n"classname" "func_detail"\n'
+                           'solid\n{\n"id" "%s"\nside\n{\n"id" "%s"\n"plane" "(0 0 0) (1 0 0) (0 1 0)"\n}\n}\n'
+                           'hidden\n{\nsolid\n{\n"id" "%s"\nside\n{\n"id" "%s"\n"plane" "(0 0 0) (1 0 0) (0 1 0)"\n}\n}\n}\n'
+                           'editor\n{\n"groupid" "4"\n"visgroupid" "3"\n}\n}\n') % (ids[0], ids[1], ids[2], ids[1], ids[3])
+                    doc += ('hidden\n{\n' + ent + '}\n') if rng.random() < 0.4 else ent
                 doc += 'visgroups\n{\nvisgroup\n{\n"name" "a"\n"visgroupid" "3"\nvisgroup\n{\n"name" "b"\n"visgroupid" "3"\n}\n}\nvisgroup\n{\n"name" "c"\n"visgroupid" "3"\n}\n}\n'
                 self.maps[mi] = VMF.parse(Keyvalues.parse(doc))
                 self.held = [o for o in self.held if o.map is not vmf]
